@@ -1,7 +1,8 @@
 """name of generated file (coq/gen/<name>.v) -> translator function(repo_path) -> Coq text. Raising = fail closed."""
-from . import evolvent_tr, facts_tr
+from . import evolvent_tr, facts_tr, method_tr
 
 TRANSLATORS = {
     'EvolventGen': evolvent_tr.translate,
     'SourceFacts': facts_tr.translate,
+    'MethodGen': method_tr.translate,
 }
